@@ -313,6 +313,5 @@ def run(ctx):
 
 
 def replay(ctx, path):
-    r = json.load(open(path))
-    print(json.dumps(r, indent=1)[:3000])
-    return 1
+    import sys
+    return common.replay_by_rerun(ctx, path, sys.modules[__name__])
